@@ -355,6 +355,39 @@ impl World {
         w
     }
 
+    /// fixtures with version variety (C07, C13): kinds 0..4 as fixture(); 4..8 empty model with a file of an older
+    /// version (+ second model of version 00050 when odd); 8..12 loaded fixture document + second model of an older version
+    pub fn fixture_v(kind: u32) -> World {
+        const OLD: [AutosarVersion; 4] = [AutosarVersion::Autosar_4_0_1, AutosarVersion::Autosar_4_2_2, AutosarVersion::Autosar_00046, AutosarVersion::Autosar_00048];
+        if kind < 4 {
+            return World::fixture(kind);
+        }
+        let old = OLD[(kind as usize / 2) % 4];
+        let mut w = World::new(2);
+        if kind < 8 {
+            let f = w.models[0].create_file("old.arxml", old).unwrap();
+            w.files.push(FileH { model: 0, file: f });
+            let f = w.models[1].create_file("new.arxml", if kind % 2 == 1 { AutosarVersion::Autosar_00050 } else { old }).unwrap();
+            w.files.push(FileH { model: 1, file: f });
+            if kind % 2 == 0 {
+                let _ = w.models[1].root_element().create_sub_element(ElementName::ArPackages).and_then(|p| p.create_named_sub_element(ElementName::ArPackage, "a"));
+            } else {
+                let _ = w.models[1].load_buffer(FIXTURE_DOC_B.as_bytes(), "b.arxml", true).map(|(f, _)| w.files.push(FileH { model: 1, file: f }));
+                // two files in model 1 now: drop the empty one so that the model stays single-file
+                let first = w.files[1].file.clone();
+                w.models[1].remove_file(&first);
+            }
+        } else {
+            let (f, _) = w.models[0].load_buffer(FIXTURE_DOC.as_bytes(), "base.arxml", true).expect("fixture loads");
+            w.files.push(FileH { model: 0, file: f });
+            let f = w.models[1].create_file("old.arxml", old).unwrap();
+            w.files.push(FileH { model: 1, file: f });
+            let _ = w.models[1].root_element().create_sub_element(ElementName::ArPackages).and_then(|p| p.create_named_sub_element(ElementName::ArPackage, "a")).and_then(|p| p.create_sub_element(ElementName::Elements));
+        }
+        w.rescan();
+        w
+    }
+
     pub fn id_of(&mut self, e: &Element) -> usize {
         if let Some(i) = self.ids.get(e) {
             return *i;
